@@ -4,6 +4,7 @@ from dataclasses import dataclass, field
 from datetime import timedelta
 from typing import Any, Callable, Optional
 
+from ..core.types import describe_error
 from .types import Phase, CheckpointResult, ResourceLock, LockResult
 from .controller import (
     CellCycleController, OperationContext, OperationResult, Checkpoint,
@@ -109,7 +110,7 @@ class CoordinationSystem:
                 ctx.set_result(result)
                 ctx.execution_complete = True
             except Exception as e:
-                raise WorkError(f"Work failed: {e}")
+                raise WorkError(f"Work failed: {describe_error(e)}")
 
             # S -> G2
             checkpoint_result = self.controller.advance(ctx)
@@ -143,7 +144,7 @@ class CoordinationSystem:
 
         except Exception as e:
             # Abort on any error
-            self.controller.abort_operation(ctx, reason=str(e))
+            self.controller.abort_operation(ctx, reason=describe_error(e))
 
             duration_ms = (time.time() - start_time) * 1000
 
@@ -151,7 +152,7 @@ class CoordinationSystem:
                 operation_id=operation_id,
                 success=False,
                 phase_reached=ctx.phase,
-                error=str(e),
+                error=describe_error(e),
                 duration_ms=duration_ms,
             )
 
